@@ -30,6 +30,7 @@ impl TrainDataGenerator {
 /// rand_chacha::ChaCha8Rng, rand::distr::weighted::WeightedIndex: external; a sample is SOME index of the weight vector
 #[verifier::external_body]
 pub struct ChaCha8Rng { _p: () }
+pub uninterp spec fn rng_seed_of(r: ChaCha8Rng) -> Option<u64>;
 #[derive(Debug)]
 pub struct WeightError;
 pub struct WeightedIndex { pub n: usize }
@@ -40,10 +41,11 @@ impl WeightedIndex {
     { unimplemented!() }
 }
 impl ChaCha8Rng {
+    /// a generator is either seeded (its stream is a function of the seed) or drawn from OS entropy (not reproducible)
     #[verifier::external_body]
-    pub fn seed_from_u64(seed: u64) -> (r: ChaCha8Rng) { unimplemented!() }
+    pub fn seed_from_u64(seed: u64) -> (r: ChaCha8Rng) ensures rng_seed_of(r) == Some(seed) { unimplemented!() }
     #[verifier::external_body]
-    pub fn from_os_rng() -> (r: ChaCha8Rng) { unimplemented!() }
+    pub fn from_os_rng() -> (r: ChaCha8Rng) ensures rng_seed_of(r).is_none() { unimplemented!() }
     #[verifier::external_body]
     pub fn sample(&mut self, d: WeightedIndex) -> (r: usize)
         ensures r < d.n,
@@ -128,6 +130,7 @@ impl MultiTrainDataGenerator {
     pub closed spec fn cur(&self) -> int { self.idx as int }
     pub closed spec fn strat(&self) -> GenerationStrategy { self.strategy }
     pub closed spec fn lens(&self) -> Seq<usize> { self.lengths@ }
+    pub closed spec fn seeded_with(&self) -> Option<u64> { rng_seed_of(self.rng) }
     pub open spec fn some_unfinished(&self) -> bool { exists|u: int| 0 <= u < self.fin().len() && !self.fin()[u] }
 
     /// representation invariant (established by `MultiTrainDataGenerator::new`, assumed; at least one source)
@@ -178,6 +181,8 @@ impl MultiTrainDataGenerator {
             res.is_err() <==> (strategy == GenerationStrategy::Weighted && exists|k: int| 0 <= k < generators.len() && (#[trigger] generators[k]).rem().len() == 0),
             // otherwise: the sources as given, nothing consumed, and (with at least one source) the invariant of `next`
             res.is_ok() ==> res.unwrap().rems() == generators@.map(|k: int, g: TrainDataGenerator| g.rem()) && res.unwrap().strat() == strategy
+                // reproducible from the seed: with a seed, the generator's random stream is the stream of exactly that seed
+                && res.unwrap().seeded_with() == seed
                 && (generators.len() > 0 ==> res.unwrap().wf()),
     {
         let mut lengths: Vec<usize> = Vec::new();
